@@ -245,7 +245,7 @@ def wait_fg_rules(ctx, crate, wj):
         ok = from_ws and last_guard
         n_ok += ok
         ctx.ob("R02-5", wj.path, "status = ws.get_status() only under pid == *pids.last()", ok,
-               key="R02-5|%s|status-write|%s" % (wj.path, render(rhs_c)[:60]), where=wj.loc(bi, si), crate=crate.kind,
+               key="R02-5|%s|status-write|%s" % (wj.path, mir.render_key(rhs_c)[:60]), where=wj.loc(bi, si), crate=crate.kind,
                detail="guards: " + "; ".join("%s=%s" % (render(a)[:70], v) for a, v in facts))
     ctx.require(n_ok >= 1, "R02-5", "R02-5|%s|status-write-anchor" % wj.path,
                 "no write of ws.get_status() into the result under pid == *pids.last()", wj.path)
@@ -287,7 +287,7 @@ def wait_fg_rules(ctx, crate, wj):
                     good = True
         if good:
             kinds.add("count")
-        desc = "; ".join("%s=%s" % (render(at)[:70], v) for at, v in conds) or "unconditional"
+        desc = "; ".join("%s=%s" % (mir.render_key(at)[:70], v) for at, v in conds) or "unconditional"
         ctx.ob("R02-5", wj.path, "loop exit [%s] is one of {waitpid error, count_waited >= count_child}" % desc, good,
                key="R02-5|%s|exit|%s" % (wj.path, desc), where=wj.loc(a), crate=crate.kind)
     ctx.require("count" in kinds, "R02-5", "R02-5|%s|exit-count" % wj.path,
